@@ -14,6 +14,10 @@ import (
 	"gosym/sym"
 )
 
+// lazyWords stands for the []big.Word of a symbolic big.Int: a one-element
+// slice holding it has the symbolic length n and cannot be indexed.
+type lazyWords struct{ n *sym.Term }
+
 func uintptrOf(p *value) uintptr { return uintptr(unsafe.Pointer(p)) }
 
 func (i *interpreter) bigFmt(t *sym.Term) interface{} {
@@ -132,7 +136,19 @@ func init() {
 				}
 				return out
 			}
-			panic(abortPath{"Bits of symbolic big.Int"})
+			// the word slice of a symbolic value: only its length is
+			// available (0 iff the value is 0; 1..4 words below 2^256)
+			x := fr.i.x
+			a := sym.Abs(t)
+			pow := func(k uint) *sym.Term { return sym.Int(new(big.Int).Lsh(big.NewInt(1), k)) }
+			if !x.branch(sym.Lt(a, pow(256))) {
+				panic(abortPath{"Bits of symbolic big.Int above 2^256"})
+			}
+			n := sym.Ite(sym.Eq(t, sym.Int64(0)), sym.Int64(0),
+				sym.Ite(sym.Lt(a, pow(64)), sym.Int64(1),
+					sym.Ite(sym.Lt(a, pow(128)), sym.Int64(2),
+						sym.Ite(sym.Lt(a, pow(192)), sym.Int64(3), sym.Int64(4)))))
+			return []value{&lazyWords{n: n}}
 		},
 		"(*math/big.Int).String": func(fr *frame, args []value) value {
 			p := args[0].(*value)
